@@ -34,6 +34,9 @@
 (*     why: "unreadable" a printed unit name that lookup cannot read       *)
 (*          "unit-dims"  printed unit has another dimensionality           *)
 (*          "exact" / "approx" / "entry" / "sum"  the value law            *)
+(*          "not-in-base" a numeral (fractions included: Numeral.tla reads *)
+(*                       numerator and denominator in the reply's base)    *)
+(*                       with digits the reply's base does not have        *)
 (*          "no-numeral", "raw-dims", "dims-text", "quantity"              *)
 (*   UNSUPPORTED l ...   floats, names with blanks, numerals outside the   *)
 (*                       grammar, zero factors                             *)
@@ -128,13 +131,16 @@ NumeralLaw(p, x, base, single, i, where) ==
   IF single THEN
     /\ (IF Has(p, "exact") \/ Has(p, "approx") THEN TRUE ELSE Say("REJECT", i, where, "no-numeral"))
     /\ (IF ~Has(p, "exact") THEN TRUE
+        ELSE IF WrongBase(p.exact, base) THEN Say("REJECT", i, where, "not-in-base")
         ELSE IF ~Supported(p.exact, base) THEN Say("UNSUPPORTED", i, where, "numeral")
         ELSE IF ExactOK(x, p.exact, base) THEN TRUE ELSE Say("REJECT", i, where, "exact"))
     /\ (IF ~Has(p, "approx") THEN TRUE
+        ELSE IF WrongBase(p.approx, base) THEN Say("REJECT", i, where, "not-in-base")
         ELSE IF ~Supported(p.approx, base) THEN Say("UNSUPPORTED", i, where, "numeral")
         ELSE IF ApproxOK(x, p.approx, base) THEN TRUE ELSE Say("REJECT", i, where, "approx"))
   ELSE
     IF ~Has(p, "exact") THEN Say("REJECT", i, where, "no-numeral")
+    ELSE IF WrongBase(p.exact, base) THEN Say("REJECT", i, where, "not-in-base")
     ELSE IF ~Supported(p.exact, base) THEN Say("UNSUPPORTED", i, where, "numeral")
     ELSE IF WithinOK(x, p.exact, base) THEN TRUE ELSE Say("REJECT", i, where, "entry")
 
